@@ -3,6 +3,7 @@ plus the Spec of C09 (Spec/Validators.lean) evaluated on what the real code did.
 
 Abstract values (what the generators produce, what crosses the protocol):
     scalar : ("i", int) ("b", bool) ("f", bits64) ("s", [codepoints]) ("y", bytes) ("o", how) ("c", ct, raw) ("t", tid, raw)
+             (ct: a simple ctypes class "i8".."u64" "f32" "f64" "char", or "chars<n>" for the array class `c_char * n`)
     value  : ("S", scalar) | ("L", kind, [scalar], elem_ctype?) | ("A", cls, vk, n, raw|None)
     key    : ("whole",) ("idx", i) ("slice", a, b, c) ("bad",)
     field  : ("int", ik) ("flt", fk) ("char",) ("byte",) ("str", n) ("arr", cls, vk, n) ("strct", tid, size)
@@ -307,6 +308,8 @@ def mat_scalar(W: World, s, alt: int = 0):
     if t == "y":
         return bytearray(s[1]) if alt % 2 else bytes(s[1])
     if t == "c":
+        if s[1].startswith("chars"):          # an instance of the array class `c_char * n` (the `_ctype` of `String(n)`)
+            return (ctypes.c_char * int(s[1][5:])).from_buffer_copy(bytes(s[2]))
         return W.ict[s[1]].from_buffer_copy(bytes(s[2]))
     if t == "t":
         return W.structs[s[1]].from_buffer_copy(bytes(s[2]))
@@ -495,13 +498,14 @@ class _Leave(Exception):
     pass
 
 
-def run_ctx(cid: str, evs: List[str]) -> List[str]:
+def run_ctx(cid: str, evs: List[str], info: Optional[Dict[str, Any]] = None) -> List[str]:
     """Execute real nested `with disable_message_validation(ignore)` blocks; after every event record whether an
     out-of-range assignment is refused (behavioural flag) - and that the context variable says the same."""
     W = world()
     V = W.V
     _flag_force_on(V)
     flags: List[str] = []
+    trouble: List[str] = []        # the context manager itself raised (reported as a correspondence difference)
 
     keeper = W.N()                 # one message that lives through the whole history
     views: List[Tuple[str, Any]] = []   # array views bound at earlier points of the history (possibly inside a block)
@@ -516,7 +520,7 @@ def run_ctx(cid: str, evs: List[str]) -> List[str]:
             try:
                 view[key] = val
                 ok = False
-            except (ValueError, TypeError, OverflowError):
+            except Exception:  # noqa: BLE001  refused, whatever the class of the exception
                 ok = bytes(keeper) == before
             if not ok:      # undo whatever was stored so that later probes start clean
                 import ctypes as _ct
@@ -529,7 +533,7 @@ def run_ctx(cid: str, evs: List[str]) -> List[str]:
         try:
             m.i8 = 1000
             refused = False
-        except ValueError:
+        except Exception:  # noqa: BLE001  refused, whatever the class of the exception
             refused = True
         var = bool(_flag_get(V))
         # "validation is in force whenever execution is not inside a disable block": also for array views that were
@@ -547,14 +551,24 @@ def run_ctx(cid: str, evs: List[str]) -> List[str]:
             ev = evs[i]
             if ev[0] == "e":
                 how = None
+                entered = False
                 try:
                     with V.disable_message_validation(ev == "e1"):
+                        entered = True
                         probe()
                         i, how = body(i + 1)
                         if how == "xe":
                             raise _Leave()
                 except _Leave:
                     pass
+                except Exception as e:  # noqa: BLE001  the context manager itself raised (entering or leaving): an
+                    # observation, never a crash of the harness.  The walk goes on, so that the flags stay aligned with
+                    # the events and the Spec still judges what the switch does afterwards.
+                    trouble.append(f"event {i} ({ev}): disable_message_validation raised {type(e).__name__} "
+                                   f"while {'leaving' if entered else 'entering'} the block")
+                    if not entered:
+                        probe()
+                        i, how = body(i + 1)
                 if how is not None:
                     probe()
             else:
@@ -565,6 +579,8 @@ def run_ctx(cid: str, evs: List[str]) -> List[str]:
         body(0)
     finally:
         _flag_force_on(V)
+    if info is not None:
+        info["manager_raised"] = trouble
     return [f"CTX {cid}", "EV " + " ".join(evs), "FLAGS " + " ".join(flags), "END"]
 
 
@@ -793,6 +809,23 @@ def str_pool(n: int) -> List[tuple]:
     return out
 
 
+def char_array_pool(n: int) -> List[tuple]:
+    """ctypes instances `c_char * m` for a `String(n)` / `Char` field: of the field's own class (stored as they are, whatever
+    they hold) and of neighbouring lengths (no `str`: refused)"""
+    out = []
+    for raw in (b"ab".ljust(n, b"\0")[:n], bytes(n), b"z" * n, (b"a\0cd" * n)[:n], b"\xc8" * n, (b"q\xe9" * n)[:n],
+                (b"\0" + b"x" * n)[:n]):
+        out.append(("c", f"chars{n}", raw))
+    for m in sorted({max(1, n - 1), n + 1, 1, 2} - {n}):
+        out.append(("c", f"chars{m}", (b"ab" * m)[:m]))
+    seen, res = set(), []
+    for x in out:
+        if x not in seen:
+            seen.add(x)
+            res.append(x)
+    return res
+
+
 def scalar_pool(fty) -> List[tuple]:
     """right-hand sides for a scalar field (key whole) or one element (key idx)"""
     t = fty[0]
@@ -806,7 +839,8 @@ def scalar_pool(fty) -> List[tuple]:
     if t == "flt":
         return float_pool() + int_for_float_pool() + wrong
     if t in ("char", "str"):
-        return str_pool(1 if t == "char" else fty[1]) + wrong
+        n = 1 if t == "char" else fty[1]
+        return str_pool(n) + char_array_pool(n) + wrong
     if t == "strct":
         return [("t", fty[1], bytes(range(1, fty[2] + 1))), ("t", fty[1], bytes(fty[2]))] + wrong
     raise ValueError(fty)
